@@ -245,6 +245,7 @@ type lRun struct {
 	c11   *c11Tracer
 	c09   *c09Tracer
 	c06   *c06Tracer
+	c09b  *c09bTracer // C09 custody backing (harness/c09b_trace_test.go)
 }
 
 func (x *lRun) fail(sig, detail string) {
@@ -422,6 +423,9 @@ func (x *lRun) exec(op lOp) (res TxResult, amt *big.Int) {
 		return TxResult{}, nil
 	case "lev_add_collateral": // C06 only (harness/c06_trace_test.go)
 		return c06AddCollateral(x, op)
+	case "c09_exit_to": // C09 only (harness/c09b_trace_test.go)
+		r, v := c09bExitTo(x, op)
+		return r, v.BigInt()
 	case "donate":
 		v := bigOf(op.Amt)
 		amt = v.BigInt()
@@ -838,7 +842,11 @@ func (x *lRun) invariants(when string) {
 			d := a.Token.Denom
 			liab, cust, _, _ := pp.GetPerpetualPoolBalances(d)
 			if a.Token.Amount.LT(cust) {
-				x.fail("C09:custody-not-backed", fmt.Sprintf("%s: pool %d %s reserve %s < total custody %s", when, pp.AmmPoolId, d, a.Token.Amount, cust))
+				sig := "C09:custody-not-backed"
+				if x.c09b != nil && x.c09b.aborts > 0 {
+					sig += ":" + c09bAbortSig
+				}
+				x.fail(sig, fmt.Sprintf("%s: pool %d %s reserve %s < total custody %s", when, pp.AmmPoolId, d, a.Token.Amount, cust))
 			}
 			n++
 			if found {
@@ -908,6 +916,9 @@ func (x *lRun) block(dt int64) bool {
 	if x.c06 != nil {
 		x.c06.step(BankOps(x.w.LastBlockEvents), "block", "", TxResult{})
 	}
+	if x.c09b != nil {
+		x.c09b.step(BankOps(x.w.LastBlockEvents), "block", TxResult{})
+	}
 	x.invariants(fmt.Sprintf("after block %d", x.w.Height))
 	return true
 }
@@ -945,6 +956,7 @@ func runLedgerHistory(t *testing.T, col *Collector, prop string, h lHist) {
 	}
 	if prop == "C09" {
 		x.c09 = newC09Tracer(x)
+		x.c09b = newC09bTracer(x)
 	}
 	if prop == "C06" {
 		x.c06 = newC06Tracer(x)
@@ -963,6 +975,13 @@ func runLedgerHistory(t *testing.T, col *Collector, prop string, h lHist) {
 		case "steer":
 			x.steer(op)
 			col.Op("steer", "ok", nil)
+			continue
+		case "c09_tune": // C09 only (harness/c09b_trace_test.go)
+			if c09bTune(x, op) {
+				col.Op("c09_tune", "ok", nil)
+			} else {
+				col.Op("c09_tune", "err", nil)
+			}
 			continue
 		case "price":
 			f := dec(op.P)
@@ -1000,6 +1019,9 @@ func runLedgerHistory(t *testing.T, col *Collector, prop string, h lHist) {
 		if x.c06 != nil {
 			x.c06.step(BankOps(res.Events), op.Op, x.m.User(op.U), res)
 		}
+		if x.c09b != nil {
+			x.c09b.step(BankOps(res.Events), op.Op, res)
+		}
 		col.Op(op.Op, res.Kind(), amt)
 		if os.Getenv("VERIF_REPLAY") != "" {
 			fmt.Printf("replay step %d %+v -> %s %v %v\n", k, op, res.Kind(), res.Err, res.Panic)
@@ -1028,7 +1050,8 @@ func runLedgerHistory(t *testing.T, col *Collector, prop string, h lHist) {
 		col.Case(h.ID, x.c11.caseText(h.ID))
 	}
 	if x.c09 != nil {
-		col.Case(h.ID, x.c09.caseText(h.ID))
+		col.Case(h.ID, "("+x.c09.caseText(h.ID)+",\n "+x.c09b.caseText(h.ID)+")")
+		x.c09b.finish(col)
 		col.mu.Lock()
 		n, _ := col.rep.Extra["mtps_created"].(int)
 		col.rep.Extra["mtps_created"] = n + x.c09.news
@@ -1087,6 +1110,9 @@ func runLedger(t *testing.T, prop string) {
 		if prop == "C06" {
 			hists = append(hists, c06Corpus()...)
 		}
+		if prop == "C09" {
+			hists = append(hists, c09bCorpus()...)
+		}
 		for i := len(hists); i < n; i++ {
 			h := lGen(NewRng(uint64(seed), uint64(i)), i)
 			if prop == "C06" {
@@ -1112,8 +1138,7 @@ func runLedger(t *testing.T, prop string) {
 		header = "From Coq Require Import ZArith List Bool.\nFrom Elys Require Import Base.Res Models.AccPool Run.AccPoolRun.\nImport ListNotations.\nOpen Scope Z_scope.\n"
 		footer = "Definition M := Eval vm_compute in mismatches cases.\nPrint M.\n"
 	case "C09":
-		header = "From Coq Require Import ZArith List Bool.\nFrom Elys Require Import Base.Res Base.Fn Models.SumLedger Models.PerpLedger Run.PerpLedgerRun.\nImport ListNotations.\nOpen Scope Z_scope.\n"
-		footer = "Definition M := Eval vm_compute in mismatches cases.\nPrint M.\n"
+		header, footer = c09bCoqHeader, c09bCoqFooter
 	case "C06":
 		header, footer = c06CoqHeader, c06CoqFooter
 	case "C08":
